@@ -1,15 +1,20 @@
 import ComposeVerif.Spec.Extends
 /-!
-# C05 — statements the unchanged tree falsifies (concrete witnesses, checked by evaluation)
+# C05 — falsified statements (concrete witnesses, checked by evaluation)
 
-1. `acyclic_ok` / `applyExtends_perm` at full strength: an acyclic chain that passes twice through
-   services of the same *name* in different files is rejected as "Circular reference" — and only in
-   some visit orders of the services map (the tracker of loader/loader.go is fed
-   `(referenced file, extending service's name)`, with the main file's name for every same-file step).
-   Replayed on the real code: corpus/C05/false-circular.json, corpus/C05/order-dependent-circular.json.
+1. **Pre-fix** (`Pre.*`, the model of the tracker as it was): `acyclic_ok` / `applyExtends_perm` at full
+   strength were false — an acyclic chain that passes twice through services of the same *name* in
+   different files was rejected as "Circular reference", and only in some visit orders of the services map
+   (the tracker was fed `(referenced file, extending service's name)`, with the main file's name for every
+   same-file step).  Repaired by `fix: the extends cycle tracker records the file the extending service
+   lives in`; both theorems now hold at full strength (`Props/C05.lean`), `order_bc_ok` below is the old
+   witness on the repaired model, corpus/C05/false-circular.json and order-dependent-circular.json replay
+   it on the real code as regressions.
 2. `no_extends_left` without the `NoNull` hypothesis: a `null` base leaves the extending service
    untouched, `extends` included (masked in whole loads: the schema rejects a `null` service).
-3. (C01's finding, reproduced) `extends: {file: f}` without `service` panics.
+3. (C01's finding, repaired by `fix: extends with a non-string service or file is reported as an error
+   instead of panicking`) `extends: {file: f}` without `service` used to panic; on the repaired tree
+   it is an error — `extends_without_service_is_error`.
 -/
 namespace CV.Extends.Neg
 open CV CV.Val CV.Extends
@@ -47,13 +52,85 @@ def dict : KVs :=
   [("services", .map [("b", .map [("extends", .str "c"), ("image", .str "ib")]),
                       ("c", .map [("extends", .map [("service", .str "b"), ("file", .str "o.yaml")])])])]
 
-/-- visiting `c` first succeeds … -/
+/-! ## the pre-fix tracker (the code before `fix: the extends cycle tracker records the file the extending
+service lives in`): the key was `(referenced file, extending name)`, with the *main* file's name for every
+same-file step.  `Pre.*` is the model of that code, kept so that the recorded defect stays a checked statement. -/
+namespace Pre
+
+def resolveBase (E : Env) (name ref : String) (file : Option String) (services : KVs) : Out (KVs × Key × Bool) :=
+  match file with
+  | none =>
+    match lookup ref services with
+    | none => .err "notFound"
+    | some _ => .ok (services, (E.mainFile, name), true)
+  | some f =>
+    match baseFromFile E.fs f ref with
+    | .ok svcs => .ok (svcs, (f, name), false)
+    | .err c => .err c
+    | .panic s => .panic s
+
+def applySvc (E : Env) : Nat → String → KVs → List Key → Out (Val × KVs)
+  | 0, _, _, _ => .panic fuelMark
+  | fuel + 1, name, services, tr =>
+    match lookup name services with
+    | none => .ok (.null, services)
+    | some .null => .ok (.null, services)
+    | some (.map svc) =>
+      (match lookup "extends" svc with
+      | none => .ok (.map svc, services)
+      | some e =>
+        match parseExtends e with
+        | .panic s => .panic s
+        | .err c => .err c
+        | .ok (ref, file) =>
+          match resolveBase E name ref file services with
+          | .panic s => .panic s
+          | .err c => .err c
+          | .ok (svcs, key, same) =>
+            match trackerAdd tr key with
+            | none => .err "circular"
+            | some tr' =>
+              match applySvc E fuel ref svcs tr' with
+              | .panic s => .panic s
+              | .err c => .err c
+              | .ok (base, svcs') =>
+                match base with
+                | .null => .ok (.map svc, if same then svcs' else services)
+                | .map b =>
+                  (match E.extend b svc with
+                  | .panic s => .panic s
+                  | .err c => .err c
+                  | .ok m =>
+                    .ok (.map (erase "extends" m),
+                         if same then insert name (.map (erase "extends" m)) svcs' else services))
+                | _ => .panic panicSite)
+    | some _ => .err "serviceNotMapping"
+
+def applyAll (E : Env) (fuel : Nat) : List String → KVs → Out KVs
+  | [], S => .ok S
+  | n :: ns, S =>
+    match applySvc E fuel n S [] with
+    | .ok (v, S') => applyAll E fuel ns (insert n v S')
+    | .err c => .err c
+    | .panic s => .panic s
+
+def applyExtendsOrd (E : Env) (order : List String) (dict : KVs) : Out KVs :=
+  match lookup "services" dict with
+  | none => .ok dict
+  | some (.map S) =>
+    match applyAll E (fuelFor E S) order S with
+    | .ok S' => .ok (insert "services" (.map S') dict)
+    | .err c => .err c
+    | .panic s => .panic s
+  | some _ => .err "servicesNotMapping"
+
+/-- pre-fix: visiting `c` first succeeds … -/
 theorem order_cb_ok : isOk (applyExtendsOrd env ["c", "b"] dict) = true := by decide
 
-/-- … visiting `b` first reports a cycle that does not exist -/
+/-- … pre-fix: visiting `b` first reports a cycle that does not exist -/
 theorem order_bc_circular : isErr "circular" (applyExtendsOrd env ["b", "c"] dict) = true := by decide
 
-/-- `acyclic_ok` and the full-strength `applyExtends_perm` are false on the unchanged tree -/
+/-- `acyclic_ok` and the full-strength `applyExtends_perm` were false before the fix -/
 theorem applyExtends_perm_fails :
     ¬ (∀ (E : Env) (d : KVs) (o₁ o₂ : List String), o₁.Perm o₂ →
         isOk (applyExtendsOrd E o₁ d) = isOk (applyExtendsOrd E o₂ d)) := by
@@ -63,6 +140,13 @@ theorem applyExtends_perm_fails :
   have h2 : isOk (applyExtendsOrd env ["b", "c"] dict) = false := by decide
   rw [h2] at this
   cases this
+
+end Pre
+
+/-- on the repaired tree both visit orders of the pre-fix witness succeed … -/
+theorem order_cb_ok : isOk (applyExtendsOrd env ["c", "b"] dict) = true := by decide
+
+theorem order_bc_ok : isOk (applyExtendsOrd env ["b", "c"] dict) = true := by decide
 
 /-- the successful order resolves `b` to own-then-inherited attributes, without `extends` -/
 theorem order_cb_value :
@@ -88,11 +172,18 @@ theorem null_base_keeps_extends :
         | _ => false)
      | _ => false) = true := by decide
 
-/-- `extends: {file: o.yaml}` without `service`: the real code panics (`v["service"].(string)`) -/
+/-- `extends: {file: o.yaml}` without `service`: an error since the repair (a panic before it) -/
 def dictNoService : KVs :=
   [("services", .map [("a", .map [("extends", .map [("file", .str "o.yaml")]), ("image", .str "ia")])])]
 
-theorem extends_without_service_panics :
-    isPanic panicSite (applyExtendsOrd env ["a"] dictNoService) = true := by decide
+theorem extends_without_service_is_error :
+    isErr "extendsServiceNotString" (applyExtendsOrd env ["a"] dictNoService) = true := by decide
+
+/-- a non-string `file` likewise -/
+def dictBadFile : KVs :=
+  [("services", .map [("a", .map [("extends", .map [("service", .str "b"), ("file", .int 1)]), ("image", .str "ia")])])]
+
+theorem extends_nonstring_file_is_error :
+    isErr "extendsFileNotString" (applyExtendsOrd env ["a"] dictBadFile) = true := by decide
 
 end CV.Extends.Neg
